@@ -1,8 +1,14 @@
 package keeper
 
+// C02 — emission follows the configured schedule, independent of block cadence.
+// Code under test (executed from /repo's source): Keeper.Mint, mint, getCurrentAndPreviousMinter,
+// Minter.AmountToMint, Linear/ExponentialStep/NoMinting.AmountToMint, Params.Validate and helpers,
+// Get/SetMinterState, SetMinterStateHistory, GetParams/SetParams.
+
 import (
 	"time"
 
+	"cosmossdk.io/math"
 	"github.com/chain4energy/c4e-chain/x/cfeminter/types"
 	codectypes "github.com/cosmos/cosmos-sdk/codec/types"
 	sdk "github.com/cosmos/cosmos-sdk/types"
@@ -10,6 +16,11 @@ import (
 )
 
 const verifCollector = "distributor_main_account"
+
+const (
+	vT0 = 1600000000 // 2020-09-13, lower bound of every instant (unix seconds)
+	vT1 = 1900000000 // 2030-03-17, upper bound
+)
 
 func verifMinterKeeper() Keeper {
 	verifNewWorld()
@@ -27,33 +38,363 @@ func verifAny(cfg types.MinterConfigI) *codectypes.Any {
 	return a
 }
 
-// Smoke: one linear period followed by no-minting; fresh state; single block at T inside the period.
-func Verif_C02_smoke_linear() {
-	k := verifMinterKeeper()
-	start := verif_time_unit("start", 1000000, 1600000000, 1700000000)
-	end := verif_time_unit("end", 1000000, 1600000000, 2000000000)
-	A := verif_int_range("A", "0", "1e36")
-	params := types.Params{MintDenom: "uc4e", StartTime: start, Minters: []*types.Minter{
-		{SequenceId: 1, EndTime: &end, Config: verifAny(&types.LinearMinting{Amount: A})},
-		{SequenceId: 2, Config: verifAny(&types.NoMinting{})},
-	}}
-	verif_assume(params.Validate() == nil)
-	ctx := verifCtx(start)
-	if err := k.SetParams(ctx, params); err != nil {
-		verif_fail("SetParams of valid params failed")
+const (
+	kNo  = 0
+	kLin = 1
+	kExp = 2
+)
+
+// verifKinds enumerates the minter-type tuples validation can accept for n periods (the last one
+// has no end time and therefore cannot be linear).
+func verifKinds(n int, c int) []int {
+	last := []int{kNo, kExp}
+	k := make([]int, n)
+	k[n-1] = last[c%2]
+	c /= 2
+	for i := n - 2; i >= 0; i-- {
+		k[i] = c % 3
+		c /= 3
 	}
-	k.SetMinterState(ctx, types.MinterState{SequenceId: 1, AmountMinted: sdk.ZeroInt(), RemainderToMint: sdk.ZeroDec(), RemainderFromPreviousMinter: sdk.ZeroDec(), LastMintBlockTime: start})
-	T := verif_time_unit("T", 1000000, 1600000000, 2000000000)
-	verif_assume(T.After(start) && T.Before(end))
+	return k
+}
+
+func verifKindCount(n int) int {
+	r := 2
+	for i := 0; i < n-1; i++ {
+		r *= 3
+	}
+	return r
+}
+
+type verifSched struct {
+	params types.Params
+	kinds  []int
+	starts []time.Time // start of period i
+}
+
+func idx(i int) string { return string(rune('1' + i)) }
+
+// verifSchedule builds an arbitrary schedule of n periods with the given kinds: symbolic start, end times
+// (millisecond aligned), amounts in [0,10^36], multipliers in [0,1], steps in [1s, 10^9 s].
+func verifSchedule(n int, kinds []int) verifSched {
+	start := verif_time_unit("start", 1000000, vT0, vT1)
+	p := types.Params{MintDenom: "uc4e", StartTime: start}
+	s := verifSched{kinds: kinds}
+	prev := start
+	for i := 0; i < n; i++ {
+		m := &types.Minter{SequenceId: uint32(i + 1)}
+		if i < n-1 {
+			e := verif_time_unit("end"+idx(i), 1000000, vT0, vT1)
+			m.EndTime = &e
+		}
+		switch kinds[i] {
+		case kNo:
+			m.Config = verifAny(&types.NoMinting{})
+		case kLin:
+			m.Config = verifAny(&types.LinearMinting{Amount: verif_int_range("A"+idx(i), "0", "1e36")})
+		case kExp:
+			m.Config = verifAny(&types.ExponentialStepMinting{
+				Amount:           verif_int_range("A"+idx(i), "1", "1e36"),
+				AmountMultiplier: verif_dec_range("mult"+idx(i), "0", "1000000000000000000"),
+				StepDuration:     time.Duration(verif_i64_range("step"+idx(i), 1000000000, 1000000000000000000)),
+			})
+		}
+		p.Minters = append(p.Minters, m)
+		s.starts = append(s.starts, prev)
+		if m.EndTime != nil {
+			prev = *m.EndTime
+		}
+	}
+	verif_assume(p.Validate() == nil) // the code's own validity predicate
+	// magnitudes of the statement: periods of at least one second
+	for i := 0; i < n-1; i++ {
+		verif_assume(!p.Minters[i].EndTime.Before(s.starts[i].Add(time.Second)))
+	}
+	s.params = p
+	return s
+}
+
+// bound on exponential steps passed inside period i up to instant t
+func (s verifSched) assumeSteps(i int, t time.Time, K int64) {
+	if s.kinds[i] != kExp {
+		return
+	}
+	cfg := s.params.Minters[i].Config.GetCachedValue().(*types.ExponentialStepMinting)
+	now := t
+	if e := s.params.Minters[i].EndTime; e != nil && t.After(*e) {
+		now = *e
+	}
+	verif_assume(int64(now.Sub(s.starts[i])) <= K*int64(cfg.StepDuration)+int64(cfg.StepDuration)-1)
+}
+
+// ---- independent reference of the documented schedule, in exact integers at 10^-18 resolution
+
+var vE18 = sdk.NewInt(1000000000000000000)
+
+// refCum returns the 10^18-scaled cumulative emission of period i from its start up to t (t clipped to the period).
+func (s verifSched) refCum(i int, t time.Time) math.Int {
+	m := s.params.Minters[i]
+	st := s.starts[i]
+	switch s.kinds[i] {
+	case kLin:
+		cfg := m.Config.GetCachedValue().(*types.LinearMinting)
+		if t.After(*m.EndTime) {
+			return cfg.Amount.Mul(vE18)
+		}
+		if t.Before(st) {
+			return sdk.ZeroInt()
+		}
+		dt := t.UnixMilli() - st.UnixMilli()
+		per := m.EndTime.UnixMilli() - st.UnixMilli()
+		return cfg.Amount.Mul(vE18).MulRaw(dt).QuoRaw(per)
+	case kExp:
+		cfg := m.Config.GetCachedValue().(*types.ExponentialStepMinting)
+		now := t
+		if m.EndTime != nil && t.After(*m.EndTime) {
+			now = *m.EndTime
+		}
+		passed := int64(now.Sub(st))
+		step := int64(cfg.StepDuration)
+		nsteps := passed / step
+		// step amounts a_0 = A, a_{i+1} = a_i * multiplier in the library's 18-decimal arithmetic
+		sum := sdk.ZeroDec()
+		a := sdk.NewDecFromInt(cfg.Amount)
+		for j := int64(0); j < nsteps; j++ {
+			sum = sum.Add(a)
+			a = a.Mul(cfg.AmountMultiplier)
+		}
+		inStep := passed - nsteps*step
+		return verif_dec_rawint(sum).Add(verif_dec_rawint(a).MulRaw(inStep).QuoRaw(step))
+	}
+	return sdk.ZeroInt()
+}
+
+// ---- state
+
+func verifFreshState(s verifSched) types.MinterState {
+	return types.MinterState{SequenceId: 1, AmountMinted: sdk.ZeroInt(), RemainderToMint: sdk.ZeroDec(),
+		RemainderFromPreviousMinter: sdk.ZeroDec(), LastMintBlockTime: s.params.StartTime}
+}
+
+// verifInvState returns an arbitrary state of period k satisfying the inductive invariant Inv_m:
+// prev end <= t_last < current end, 0 <= carry < 1, 0 <= AmountMinted <= trunc(f_k(t_last) + carry)
+// where f_k is the code's own AmountToMint.
+func verifInvState(s verifSched, k int, K int64) types.MinterState {
+	tl := verif_time("t_last")
+	verif_assume(!tl.Before(s.starts[k]))
+	if e := s.params.Minters[k].EndTime; e != nil {
+		verif_assume(tl.Before(*e))
+	}
+	s.assumeSteps(k, tl, K)
+	carry := verif_dec_range("carry", "0", "999999999999999999")
+	minted := verif_int_range("minted", "0", "1e40")
+	f := s.params.Minters[k].AmountToMint(verifLogger{}, s.starts[k], tl)
+	verif_assume(minted.LTE(f.Add(carry).TruncateInt()))
+	return types.MinterState{SequenceId: uint32(k + 1), AmountMinted: minted, RemainderToMint: verif_dec_range("rtm", "0", "999999999999999999"),
+		RemainderFromPreviousMinter: carry, LastMintBlockTime: tl}
+}
+
+func verifInstall(k Keeper, s verifSched, st types.MinterState, t time.Time) sdk.Context {
+	ctx := verifCtx(t)
+	if err := k.SetParams(ctx, s.params); err != nil {
+		verif_fail("SetParams rejects parameters that Validate accepted")
+	}
+	k.SetMinterState(ctx, st)
+	return ctx
+}
+
+func verifCollected() math.Int {
+	return W.bank.balance(verifAddrKey(verifModuleAddr(verifCollector)), "uc4e")
+}
+
+func verifSizes() (nmax int, K int64) {
+	// C02 is about amounts, not about panics: 256/315-bit overflow checks of math.Int / sdk.Dec are switched off here
+	// (amounts <= 10^36 keep every intermediate value below 10^90 < 2^315); C10 checks the panic sites.
+	verif_knob("ignore_overflow", 1)
+	if verif_tier() > 0 {
+		return 3, 3
+	}
+	return 2, 2
+}
+
+// O3 + O4: from the fresh state, one block at any T: minted = floor(sum of finished periods + current period's emission at T),
+// every finished linear period has minted exactly its amount, carry is the fractional part.
+func Verif_C02_reference_from_fresh() {
+	nmax, K := verifSizes()
+	n := verif_choice("n", nmax) + 1
+	kinds := verifKinds(n, verif_choice("kinds", verifKindCount(n)))
+	s := verifSchedule(n, kinds)
+	k := verifMinterKeeper()
+	T := verif_time("T")
+	verif_assume(T.After(s.params.StartTime))
+	for i := 0; i < n; i++ {
+		s.assumeSteps(i, T, K)
+	}
+	ctx := verifInstall(k, s, verifFreshState(s), s.params.StartTime)
 	ctx = ctx.WithBlockTime(T)
 	amt, err := k.Mint(ctx)
-	verif_assert(err == nil, "mint returns no error")
-	// reference: floor(A * (T-start)ms / (end-start)ms)
-	dt := T.UnixMilli() - start.UnixMilli()
-	per := end.UnixMilli() - start.UnixMilli()
-	ref := A.MulRaw(dt).QuoRaw(per)
-	verif_assert(amt.Equal(ref), "minted = floor(A*dt/period)")
-	verif_assert(W.bank.balance(verifAddrKey(verifModuleAddr(verifCollector)), "uc4e").Equal(ref), "collector received the minted amount")
-	verif_reach("smoke end")
-	_ = time.Second
+	verif_assert(err == nil, "Mint returns no error")
+	verif_assert(!amt.IsNegative(), "no negative mint")
+	// reference
+	total := sdk.ZeroInt()
+	cur := 0
+	for i := 0; i < n; i++ {
+		e := s.params.Minters[i].EndTime
+		if e != nil && !T.Before(*e) {
+			total = total.Add(s.refCum(i, *e))
+			cur = i + 1
+			continue
+		}
+		total = total.Add(s.refCum(i, T))
+		break
+	}
+	verif_assert(amt.Equal(total.Quo(vE18)), "minted(T) = integer part of the schedule's cumulative emission")
+	verif_assert(verifCollected().Equal(amt), "collector received exactly the minted amount")
+	st := k.GetMinterState(ctx)
+	verif_assert(st.SequenceId == uint32(cur+1), "state points at the period containing T")
+	verif_assert(st.LastMintBlockTime.Equal(T), "state advanced to T")
+	verif_assert(verif_dec_rawint(st.RemainderToMint).Equal(total.Sub(total.Quo(vE18).Mul(vE18))), "remainder = fractional part of cumulative emission")
+	for i := 0; i < cur; i++ {
+		h, found := k.GetMinterStateHistory(ctx, uint32(i+1))
+		verif_assert(found, "finished period has a history entry")
+		if kinds[i] == kLin {
+			cfg := s.params.Minters[i].Config.GetCachedValue().(*types.LinearMinting)
+			verif_assert(h.AmountMinted.Equal(cfg.Amount), "finished linear period minted exactly its amount")
+		}
+		if kinds[i] == kNo {
+			verif_assert(h.AmountMinted.IsZero(), "no-minting period minted nothing")
+		}
+	}
+	verif_reach("reference checked")
+}
+
+// O1 + O2 + O5, inductive step: from an ARBITRARY state satisfying Inv_m, one block at any later T leaves a state that is a
+// function of (schedule, T, carry chain) only — it does not depend on how much had been minted or when the last block was.
+// Together with "returned = growth of AmountMinted over the periods touched" this gives partition independence by induction:
+// blocks t1,t2 and the single block t2 end in the same state and have minted the same total. The post-state satisfies
+// Inv_m with equality, no block is skipped as "negative".
+func Verif_C02_step_from_inv() {
+	nmax, K := verifSizes()
+	n := verif_choice("n", nmax) + 1
+	kinds := verifKinds(n, verif_choice("kinds", verifKindCount(n)))
+	s := verifSchedule(n, kinds)
+	cur := verif_choice("cur", n)
+	// the block time is either one of the period ends itself (syntactically, so that the boundary instant is exact)
+	// or an arbitrary instant different from every period end
+	T := verif_time("T")
+	if sel := verif_choice("Tsel", n); sel > 0 {
+		T = *s.params.Minters[sel-1].EndTime
+	} else {
+		for i := 0; i < n-1; i++ {
+			verif_assume(!T.Equal(*s.params.Minters[i].EndTime))
+		}
+	}
+	for i := 0; i < n; i++ {
+		s.assumeSteps(i, T, K)
+	}
+	st0 := verifInvState(s, cur, K)
+	verif_assume(T.After(st0.LastMintBlockTime))
+	// lemma discharged separately by Verif_C02_monotone: the schedule of one period is monotone in time
+	fl := s.params.Minters[cur].AmountToMint(verifLogger{}, s.starts[cur], st0.LastMintBlockTime)
+	fT := s.params.Minters[cur].AmountToMint(verifLogger{}, s.starts[cur], T)
+	verif_assume(fl.LTE(fT))
+
+	k := verifMinterKeeper()
+	ctx := verifInstall(k, s, st0, st0.LastMintBlockTime)
+	ctx = ctx.WithBlockTime(T)
+	amt, err := k.Mint(ctx)
+	verif_assert(err == nil, "Mint returns no error")
+	verif_assert(!amt.IsNegative(), "no negative mint")
+	st := k.GetMinterState(ctx)
+	verif_assert(st.LastMintBlockTime.Equal(T), "block was processed (not skipped as negative)")
+
+	c := verif_dec_rawint(st0.RemainderFromPreviousMinter)
+	returned := sdk.ZeroInt()
+	for j := cur; j < n; j++ {
+		e := s.params.Minters[j].EndTime
+		prevMinted := sdk.ZeroInt()
+		if j == cur {
+			prevMinted = st0.AmountMinted
+		}
+		if e != nil && !T.Before(*e) {
+			X := s.refCum(j, *e).Add(c)
+			h, found := k.GetMinterStateHistory(ctx, uint32(j+1))
+			verif_assert(found, "finished period has a history entry")
+			verif_assert(h.AmountMinted.Equal(X.Quo(vE18)), "finished period minted trunc(F + carry) in total")
+			returned = returned.Add(X.Quo(vE18)).Sub(prevMinted)
+			c = X.Sub(X.Quo(vE18).Mul(vE18))
+			verif_assert(verif_dec_rawint(h.RemainderToMint).Equal(c), "history remainder = fraction carried on")
+			continue
+		}
+		X := s.refCum(j, T).Add(c)
+		verif_assert(st.SequenceId == uint32(j+1), "state points at the period containing T")
+		verif_assert(st.AmountMinted.Equal(X.Quo(vE18)), "AmountMinted = trunc(f(T) + carry): independent of the pre-state")
+		verif_assert(verif_dec_rawint(st.RemainderFromPreviousMinter).Equal(c), "carry comes from the previous period only")
+		verif_assert(verif_dec_rawint(st.RemainderToMint).Equal(X.Sub(X.Quo(vE18).Mul(vE18))), "remainder = fraction of f(T)+carry")
+		returned = returned.Add(X.Quo(vE18)).Sub(prevMinted)
+		break
+	}
+	verif_assert(amt.Equal(returned), "returned amount = growth of AmountMinted over the periods touched")
+	verif_assert(verifCollected().Equal(amt), "collector received exactly the returned amount")
+	verif_assert(!st.RemainderFromPreviousMinter.IsNegative() && st.RemainderFromPreviousMinter.LT(sdk.OneDec()), "Inv: 0 <= carry < 1")
+	verif_reach("step checked")
+}
+
+// Lemma used by the step harness: within one period the schedule is monotone in time (the code's own AmountToMint).
+func Verif_C02_monotone() {
+	_, K := verifSizes()
+	kind := verif_choice("kind", 3)
+	withEnd := verif_choice("withEnd", 2)
+	if kind == kLin && withEnd == 0 {
+		return // validation rejects a linear period without end
+	}
+	start := verif_time_unit("start", 1000000, vT0, vT1)
+	m := &types.Minter{SequenceId: 1}
+	var end time.Time
+	if withEnd == 1 {
+		end = verif_time_unit("end1", 1000000, vT0, vT1)
+		verif_assume(!end.Before(start.Add(time.Second)))
+		m.EndTime = &end
+	}
+	ta := verif_time("ta")
+	tb := verif_time("tb")
+	verif_assume(!ta.Before(start) && !tb.Before(ta))
+	switch kind {
+	case kNo:
+		m.Config = verifAny(&types.NoMinting{})
+	case kLin:
+		m.Config = verifAny(&types.LinearMinting{Amount: verif_int_range("A1", "0", "1e36")})
+	case kExp:
+		cfg := &types.ExponentialStepMinting{
+			Amount:           verif_int_range("A1", "1", "1e36"),
+			AmountMultiplier: verif_dec_range("mult1", "0", "1000000000000000000"),
+			StepDuration:     time.Duration(verif_i64_range("step1", 1000000000, 1000000000000000000)),
+		}
+		m.Config = verifAny(cfg)
+		now := tb
+		if withEnd == 1 && tb.After(end) {
+			now = end
+		}
+		verif_assume(int64(now.Sub(start)) <= K*int64(cfg.StepDuration)+int64(cfg.StepDuration)-1)
+	}
+	fa := m.AmountToMint(verifLogger{}, start, ta)
+	fb := m.AmountToMint(verifLogger{}, start, tb)
+	verif_assert(!fa.IsNegative(), "emission is non-negative")
+	verif_assert(fa.LTE(fb), "emission is monotone in time")
+	verif_reach("monotone checked")
+}
+
+// Before the start time and at a repeated block time nothing is minted and the state does not move.
+func Verif_C02_no_mint_outside() {
+	kinds := verifKinds(2, verif_choice("kinds", verifKindCount(2)))
+	s := verifSchedule(2, kinds)
+	k := verifMinterKeeper()
+	st0 := verifFreshState(s)
+	T := verif_time("T")
+	verif_assume(!T.After(s.params.StartTime))
+	ctx := verifInstall(k, s, st0, T)
+	amt, err := k.Mint(ctx)
+	verif_assert(err == nil && amt.IsZero(), "nothing minted at or before the start")
+	verif_assert(verifCollected().IsZero(), "no coins moved")
+	verif_reach("outside checked")
 }
